@@ -76,7 +76,26 @@ def doc_enum_linked():
     return doc
 
 
-DOCS = dict(docs.DOCS, enum=doc_enum, enum_linked=doc_enum_linked)
+def doc_chain():
+    """POST /users -> GET /users/{id} -> PATCH /users/{id} -> GET ... : the links form a cycle, so a stateful sequence
+    is as long as the step count lets it be."""
+    ok_id = {"200": {"description": "ok", "content": {"application/json": {"schema": {"type": "object"}}}}}
+    doc = docs.doc_two_linked()
+    get = doc["paths"]["/users/{id}"]["get"]
+    get["responses"] = copy.deepcopy(ok_id)
+    get["responses"]["200"]["links"] = {"patch": {"operationId": "patchUser", "parameters": {"id": "$response.body#/id"}}}
+    doc["paths"]["/users/{id}"]["patch"] = {
+        "operationId": "patchUser",
+        "parameters": [docs.int_param("id", "path")],
+        "requestBody": {"required": True, "content": {"application/json": {"schema": {"type": "object", "properties": {"n": {"type": "integer"}}, "required": ["n"], "additionalProperties": False}}}},
+        "responses": copy.deepcopy(ok_id),
+    }
+    doc["paths"]["/users/{id}"]["patch"]["responses"]["200"]["links"] = {"get": {"operationId": "getUser", "parameters": {"id": "$response.body#/id"}}}
+    return doc
+
+
+CHAIN_RULES = docs.LINK_RULES + [{"when": {"path_regex": "^/users/"}, "then": {"status": 200, "json": {"id": 7}}}]
+DOCS = dict(docs.DOCS, enum=doc_enum, enum_linked=doc_enum_linked, chain=doc_chain)
 FAIL_ALL = [{"when": {"path_regex": "^/(a|b|c|r\\d|items)"}, "then": {"status": 500, "json": {}}}]
 FAIL_SOME = [{"when": {"path_regex": "^/(r[0246]|a|c)"}, "then": {"status": 500, "json": {}}}]
 FAIL_ENUM = [{"when": {"path_regex": "^/(e|f/|g|h)"}, "then": {"status": 500, "json": {}}}]
@@ -97,6 +116,13 @@ def gen_cases(tier, seed):
     for steps in (2, 4, 6):
         for me in (3, 6):
             cases.append({"kind": "steps", "doc": "two_linked", "cfg": {"phases": ["stateful"], "max_examples": me, "stateful_step_count": steps}, "rules": []})
+    # a link cycle: the step count is the only thing that ends a sequence (also below Hypothesis' own default)
+    for steps in (2, 3, 5, 8):
+        cases.append({"kind": "steps", "doc": "chain", "cfg": {"phases": ["stateful"], "max_examples": 5, "stateful_step_count": steps}, "rules": CHAIN_RULES, "rname": "chain"})
+        cases.append({"kind": "steps", "doc": "chain", "cfg": {"phases": ["stateful"], "max_examples": 5, "stateful_step_count": steps, "hypothesis_phases_default": True}, "rules": CHAIN_RULES, "rname": "chain-api-defaults"})
+    # a stop request in the middle of a long sequence
+    for _ in range(4 if thorough else 2):
+        cases.append({"kind": "stop", "doc": "chain", "cfg": {"phases": ["stateful"], "max_examples": 6, "stateful_step_count": 12}, "rules": CHAIN_RULES, "rname": "chain", "k": rng.randrange(2, 9), "on_request": True, "delay": rng.choice([None, {"point": "stateful.step", "hit": rng.randint(2, 5)}])})
     for mf in (1, 2, 3):
         for workers in (1, 2, 4):
             for rules, rname in ((FAIL_ALL, "all"), (FAIL_SOME, "some")):
@@ -165,7 +191,10 @@ def execute(case, seed):
     kwargs = {}
     plan_ = {"control.count_failure": [{"action": "mark", "arg": "first_failure_counted", "hit": 1}]}
     if case["kind"] == "stop":
-        kwargs["stop_after"] = case["k"]
+        if case.get("on_request"):
+            kwargs["stop_on_request"] = case["k"]  # the stop arrives while a request of a sequence is being served
+        else:
+            kwargs["stop_after"] = case["k"]
         if case.get("delay"):
             plan_[case["delay"]["point"]] = [{"hit": case["delay"]["hit"], "action": "delay", "arg": 0.15}]
     if case["kind"] == "rate":
